@@ -2424,6 +2424,8 @@ class Emitter(Unit):
                 cargs = self.call_args(ctor, args, fc)
                 cname = self.request(ctor['id'])
                 return '%s(%s)' % (cname, ', '.join([slot] + cargs))
+            if name == 'insert' and len(args) == 3:
+                return '%s__insert_range(%s, %s)' % (cn, oa, ', '.join(self.expr(a, fc) for a in args))
             if name in ('push_back', 'emplace_back'):
                 if len(args) != 1:
                     raise Unsupported('emplace_back with %d args' % len(args))
